@@ -40,6 +40,7 @@ type ChCase struct {
 	Key     string    `json:"key"`
 	Len     int       `json:"len"`
 	Proc    bool      `json:"proc"` // also start the real binary on this chain
+	Again   int       `json:"again,omitempty"` // build the chain from the SAME configuration value this many times first and use the last build
 }
 
 func (v ChVal) goValue() interface{} {
@@ -142,7 +143,11 @@ func runChCase(c ChCase, tag string) (string, map[string]int) {
 		pcs = append(pcs, config.PluginConfig{Name: e.Name, Config: m})
 	}
 	base := http.HandlerFunc(func(w http.ResponseWriter, r *http.Request) { chEvent(0); w.WriteHeader(200) })
-	h, err := plugins.BuildChain(config.PluginsConfig{Enabled: c.Enabled, Chain: pcs}, base)
+	pc := config.PluginsConfig{Enabled: c.Enabled, Chain: pcs}
+	for i := 0; i < c.Again; i++ { // rebuilding from one configuration value (a second listener, validate-then-serve) gives the same chain
+		plugins.BuildChain(pc, base)
+	}
+	h, err := plugins.BuildChain(pc, base)
 	built := err == nil && h != nil
 	chRec.mu.Lock()
 	chRec.evs = nil
@@ -339,6 +344,7 @@ func genChEntry(g *Rng, valid bool) ChEntry {
 
 func genChCase(g *Rng) ChCase {
 	c := ChCase{Enabled: !g.Chance(8), Key: []string{"k1", "k1", "secret", "\x00", "", "K1", " "}[g.Intn(7)], Len: []int{0, 1, 8, 9, 16, 17, 1000, 1001}[g.Intn(8)]}
+	c.Again = []int{0, 0, 0, 1, 1, 2}[g.Intn(6)]
 	n := []int{0, 1, 2, 2, 3, 3, 4, 5, 5}[g.Intn(9)]
 	badAt := -1
 	if g.Chance(30) && n > 0 {
